@@ -1,6 +1,6 @@
 (* regularize_returned_event, tag_events_by_method_name, message_signature, _resolve_address and local as GENERATED from the source
    (gen/WrapperSrc.v, by tools/tr_wrapper.py) are regularize, tag_events, msig, resolve and local_addr of Model/Dispatch.v. *)
-From Coq Require Import List String Bool Arith.
+From Coq Require Import List String Ascii Bool Arith.
 Import ListNotations.
 From V Require Import Model.Dispatch.
 From G Require Import WrapperSrc.
@@ -28,6 +28,14 @@ Section Tie.
 
   Theorem src_local_is_local_addr (cur a : string) : src_local cur a = local_addr cur a.
   Proof. reflexivity. Qed.
+
+  Theorem src_find_mapping_name_is_find_mapping_keys (keys : list string) (target : string) :
+    src_find_mapping_name keys target = find_mapping_keys keys target.
+  Proof.
+    unfold src_find_mapping_name, find_mapping_keys. destruct (existsb _ keys); [reflexivity|].
+    induction keys as [|k r IH]; [reflexivity|]. cbn [src_find_marked find_dollar]. destruct k as [|c k']; [reflexivity|].
+    destruct (Ascii.eqb c "$"%char && substringb (remove_dollar (String c k')) target); [reflexivity|exact IH].
+  Qed.
 
   (* C07 at the wrapper: a reducer answer that holds a rejection is passed on without an automatic ACCEPT, whatever shape it has *)
   Theorem src_rejected_answer_gets_no_accept (name method : string) (m : maybe_events Pay) :
